@@ -21,15 +21,15 @@ import (
 
 // Mix is the weight of each staking step kind in the main phase of a plan.
 type Mix struct {
-	Reg, Lock, Unlock, Collect, PayFees, Kill, Shutdown, Settings, Check, Block, Clock, Replay, Junk int
+	Reg, Lock, Unlock, Collect, PayFees, Kill, Shutdown, Settings, Check, Block, Clock, Replay, Junk, Alloc int
 }
 
 var (
-	mixWorkload = Mix{Reg: 2, Lock: 6, Unlock: 4, Collect: 3, PayFees: 5, Kill: 2, Shutdown: 2, Settings: 2, Check: 0, Block: 5, Clock: 2, Replay: 2, Junk: 2}
-	mixC11      = Mix{Reg: 2, Lock: 8, Unlock: 7, Collect: 4, PayFees: 4, Kill: 1, Shutdown: 1, Settings: 1, Check: 0, Block: 5, Clock: 3, Replay: 2, Junk: 2}
+	mixWorkload = Mix{Reg: 2, Lock: 6, Unlock: 4, Collect: 3, PayFees: 5, Kill: 2, Shutdown: 2, Settings: 2, Check: 0, Block: 5, Clock: 2, Replay: 2, Junk: 2, Alloc: 1}
+	mixC11      = Mix{Reg: 2, Lock: 8, Unlock: 7, Collect: 4, PayFees: 4, Kill: 1, Shutdown: 1, Settings: 1, Check: 0, Block: 5, Clock: 3, Replay: 2, Junk: 2, Alloc: 1}
 	mixC10      = Mix{Reg: 2, Lock: 6, Unlock: 2, Collect: 2, PayFees: 7, Kill: 1, Shutdown: 1, Settings: 3, Check: 5, Block: 5, Clock: 1, Replay: 1, Junk: 1}
 	mixC22      = Mix{Reg: 2, Lock: 5, Unlock: 2, Collect: 2, PayFees: 10, Kill: 2, Shutdown: 0, Settings: 4, Check: 0, Block: 6, Clock: 1, Replay: 2, Junk: 1}
-	mixC23      = Mix{Reg: 2, Lock: 5, Unlock: 3, Collect: 2, PayFees: 4, Kill: 6, Shutdown: 6, Settings: 2, Check: 3, Block: 5, Clock: 1, Replay: 2, Junk: 1}
+	mixC23      = Mix{Reg: 2, Lock: 5, Unlock: 3, Collect: 2, PayFees: 4, Kill: 6, Shutdown: 6, Settings: 2, Check: 3, Block: 5, Clock: 1, Replay: 2, Junk: 1, Alloc: 2}
 )
 
 // genExtra returns the plan generator of a mix. The plan it produces is:
@@ -82,13 +82,20 @@ func genExtra(mix Mix) func(r *sim.RNG, p *sim.Plan, tier string) {
 			}
 		}
 		steps = append(steps, sim.Step{Op: "block", I: []int64{0, 1}})
+		if sw.Intn(2) == 0 {
+			// more than one rewarded sharder (the shipped setting is 1)
+			steps = append(steps, sim.Step{Op: "st.settings", I: []int64{int64(14 + sw.Intn(2)), 0, 0}})
+		}
+		if mix.Alloc > 0 && sw.Intn(3) == 0 {
+			steps = append(steps, sim.Step{Op: "st.alloc", A: sw.Intn(20), I: []int64{0, int64(sw.Intn(3))}})
+		}
 
 		// main phase
 		n := sw.Range(20, 60)
 		if tier == "thorough" {
 			n = sw.Range(30, 160)
 		}
-		ws := []int{mix.Reg, mix.Lock, mix.Unlock, mix.Collect, mix.PayFees, mix.Kill, mix.Shutdown, mix.Settings, mix.Check, mix.Block, mix.Clock, mix.Replay, mix.Junk}
+		ws := []int{mix.Reg, mix.Lock, mix.Unlock, mix.Collect, mix.PayFees, mix.Kill, mix.Shutdown, mix.Settings, mix.Check, mix.Block, mix.Clock, mix.Replay, mix.Junk, mix.Alloc}
 		var main []sim.Step
 		for i := 0; i < n; i++ {
 			switch sw.Pick(ws) {
@@ -134,6 +141,8 @@ func genExtra(mix Mix) func(r *sim.RNG, p *sim.Plan, tier string) {
 				main = append(main, sim.Step{Op: "replay", I: []int64{int64(sw.Intn(1000))}})
 			case 12:
 				main = append(main, sim.Step{Op: "st.junk", A: sw.Intn(20), I: []int64{int64(sw.Intn(64)), int64(sw.Intn(32)), int64(sw.Intn(8))}})
+			case 13:
+				main = append(main, sim.Step{Op: "st.alloc", A: sw.Intn(20), I: []int64{int64(sw.Intn(3)), int64(sw.Intn(3))}})
 			}
 		}
 		// interleave the base steps of the scenario into the main phase
@@ -175,7 +184,8 @@ func (x *Ops) identity(r *ledger.Runner, kind spenum.Provider, i int64) (id stri
 	if i < 0 {
 		i = -i
 	}
-	nb, nv, na := cfgN(r, "blobbers", 2), cfgN(r, "validators", 1), cfgN(r, "authorizers", 1)
+	// disjoint client ranges per kind (at least one slot each, also when the bootstrap registers none)
+	nb, nv, na := max(1, cfgN(r, "blobbers", 2)), max(1, cfgN(r, "validators", 1)), max(1, cfgN(r, "authorizers", 1))
 	pick := func(off, n int) (string, *ledger.Client) {
 		if n <= 0 {
 			n = 1
@@ -212,10 +222,21 @@ func (x *Ops) node(kind spenum.Provider, i int64) *ledger.Node {
 // submit builds, signs and applies a contract call.
 func (x *Ops) submit(r *ledger.Runner, from string, cl *ledger.Client, to, fn string, input any, value int64, feeKind int64) *ledger.Outcome {
 	r.EnsureBlock()
+	nonce := r.ResolveNonce(ledger.NExpected, from)
 	t := x.W.MakeTxn(ledger.TxnSpec{From: from, To: to, Type: transaction.TxnTypeSmartContract, Name: fn, Input: input,
-		Value: value, Fee: r.ResolveFee(feeKind, from), Nonce: r.ResolveNonce(ledger.NExpected, from)})
+		Value: value, Fee: x.fee(r, feeKind, from, nonce), Nonce: nonce})
 	x.W.SignTxn(t, cl)
 	return r.Submit(t)
+}
+
+// fee: the world's symbolic fee plus a few odd units (a function of the sender's nonce), so that
+// block fee totals do not stay multiples of every divisor the reward split uses.
+func (x *Ops) fee(r *ledger.Runner, kind int64, from string, nonce int64) int64 {
+	f := r.ResolveFee(kind, from)
+	if f > 0 && f < 1e12 {
+		f += (nonce * 7) % 11
+	}
+	return f
 }
 
 func (x *Ops) submitRaw(r *ledger.Runner, from string, cl *ledger.Client, to, fn, raw string, value int64, feeKind int64) *ledger.Outcome {
@@ -369,6 +390,7 @@ func (x *Ops) Install(r *ledger.Runner) {
 	r.Ops["st.settings"] = x.opSettings
 	r.Ops["st.clock"] = x.opClock
 	r.Ops["st.junk"] = x.opJunk
+	r.Ops["st.alloc"] = x.opAlloc
 	if _, ok := r.Ops["st.check"]; !ok {
 		r.Ops["st.check"] = func(r *ledger.Runner, st sim.Step) {} // checkpoints only mean something to the C10 / C23 oracles
 	}
@@ -729,6 +751,36 @@ func (x *Ops) opJunk(r *ledger.Runner, st sim.Step) {
 		v = []int64{zcn, 0, 1, zcn - 1}[int(st.Int(0, 0)/8)%4]
 	}
 	x.submitRaw(r, from, cl, c, fn, raw, v, st.Int(0, 0)%3)
+}
+
+// st.alloc: A = client, I = [size kind, value kind]: a storage allocation over all live registered
+// blobbers (at least two), which puts offers (TotalOffers) on their stake pools. The staking
+// workload needs it for one thing only: stake pools that must keep covering offers.
+func (x *Ops) opAlloc(r *ledger.Runner, st sim.Step) {
+	r.EnsureBlock()
+	var ids []string
+	for _, p := range x.M.Provs {
+		if p.Kind == spenum.Blobber && !p.Dead {
+			ids = append(ids, p.ID)
+		}
+	}
+	if len(ids) < 2 {
+		return
+	}
+	if len(ids) > 4 {
+		ids = ids[:4]
+	}
+	from, cl := x.W.Account(st.A)
+	in := map[string]any{
+		"name": "sim", "data_shards": 1, "parity_shards": len(ids) - 1,
+		"size":              []int64{1 << 30, 8 << 30, 1 << 20}[int(st.Int(0, 0))%3],
+		"blobbers":          ids,
+		"blobber_auth_tickets": make([]string, len(ids)),
+		"read_price_range":  map[string]int64{"min": 0, "max": int64(1e10)},
+		"write_price_range": map[string]int64{"min": 0, "max": int64(1e10)},
+	}
+	v := []int64{zcn, 5 * zcn, zcn / 10}[int(st.Int(1, 0))%3]
+	x.submit(r, from, cl, ledger.AddrStorage, "new_allocation_request", in, v, 0)
 }
 
 var _ = storagesc.ADDRESS
